@@ -28,6 +28,7 @@ import I3.Gen.GoChkFF
 import I3.Gen.GoChkFFG
 import I3.Gen.GoChkFFLimb
 import I3.Gen.GoChkFFGLimb
+import I3.Gen.GoPoseidonLimb
 open I3 I3.Gen.Go
 
 def parseInt? (s : String) : Option Int := s.toInt?
@@ -432,13 +433,38 @@ def okOp (op : String) (pat : String) (args : List String) : Option String := do
   | "ffg.setbigint", [v] => pure (b (ffgl_Element_SetBigInt_ok (stale 1) (← parseInt? v)))
   | _, _ => pure "-"
 
+/-- mode `limb`: the Poseidon ops through the LIMB TWIN of package poseidon (`I3.Gen.GoPoseidonLimb`: the same Go
+    source translated a second time with an `ff.Element` as its four Montgomery limbs, arithmetic = the T2 kernels,
+    tables = `I3.Go.Ext.poseidon_c_limbs`); same result format as mode `gen`, `-` for every other op. -/
+def limbTwinOp (op : String) (_pat : String) (args : List String) : Option String := do
+  match op, args with
+  | "poseidon.hashex", [inp, st, n] =>
+    match poseidonl_HashWithStateEx (← parseIntList? inp) (← parseInt? st) (← parseInt? n) with
+    | (r, none) => pure (showList toString r)
+    | (_, some e) => pure (classifyErr e)
+  | "poseidon.hashex", [inp, n] =>
+    match poseidonl_HashEx (← parseIntList? inp) (← parseInt? n) with
+    | (r, none) => pure (showList toString r)
+    | (_, some e) => pure (classifyErr e)
+  | "poseidon.hash", [inp] =>
+    match poseidonl_Hash (← parseIntList? inp) with
+    | (r, none) => pure (toString r)
+    | (_, some e) => pure (classifyErr e)
+  | "poseidon.hashwithstate", [inp, st] =>
+    match poseidonl_HashWithState (← parseIntList? inp) (← parseInt? st) with
+    | (r, none) => pure (toString r)
+    | (_, some e) => pure (classifyErr e)
+  | _, _ => pure "-"
+
 def step (mode : String) (line : String) : String :=
   match (line.trimAscii.toString.splitOn " ").filter (· ≠ "") with
   | [] => "bad-op"
   | op :: args =>
     let pat := (op.splitOn "@").getD 1 ""
     let op := (op.splitOn "@").headD op
-    if mode = "ok" then (okOp op pat args).getD "bad-op" else (genOp op pat args).getD "bad-op"
+    if mode = "ok" then (okOp op pat args).getD "bad-op"
+    else if mode = "limb" then (limbTwinOp op pat args).getD "bad-op"
+    else (genOp op pat args).getD "bad-op"
 
 partial def loop (mode : String) (hin hout : IO.FS.Stream) : IO Unit := do
   let line ← hin.getLine
